@@ -104,6 +104,20 @@ class C05(F.Spec):
                                         % (T, now, last_rx)))
                 if now - last_rx < min(T + 10, 60) * 1000 - 1000:
                     fs.append(F.Finding("early-reconnect", "T=%d: recovery %d ms after the last received message" % (T, now - last_rx)))
+        if case.meta.get("silent_at") is not None and last_rx <= case.meta["silent_at"] * 1000:
+            # whatever was tried in between (reconnects), a device that hears nothing at all restarts itself
+            t_restart, t2 = None, 0
+            for op, g in zip(case.ops, raw):
+                if op.startswith("adv "):
+                    t2 += int(op.split()[1])
+                if "RESTART" in g and t_restart is None:
+                    t_restart = t2
+            if t_restart is None and now - last_rx > 63 * 1000 + 1100:
+                fs.append(F.Finding("no-watchdog-restart", "T=%d: nothing received for %d ms and the device did not restart itself" % (T, now - last_rx)))
+            elif t_restart is not None and t_restart - last_rx > 63 * 1000 + 1100:
+                fs.append(F.Finding("late-watchdog-restart", "T=%d: restart %d ms after the last received message" % (T, t_restart - last_rx)))
+            elif t_restart is not None and t_restart - last_rx < 60 * 1000 - 1100:
+                fs.append(F.Finding("early-watchdog-restart", "T=%d: restart only %d ms after the last received message" % (T, t_restart - last_rx)))
         if case.meta.get("silent_at") is not None and recovered is None:
             bound = min(T + 11, 62) * 1000 + 1100
             if now - last_rx > bound:
